@@ -22,6 +22,8 @@ mod state;
 pub use state::ClusterState;
 #[cfg(test)]
 pub(crate) use state::NodeConfig;
+#[cfg(all(scylla_verif, not(test)))]
+pub(crate) use state::NodeConfig;
 
 pub(crate) mod node;
 pub use node::{KnownNode, Node, NodeAddr, NodeRef};
